@@ -189,7 +189,7 @@ package ast
 // reasoning, so the combined statement is assumed at call sites.
 //@   censures result == nil ==> forall(i, 0 <= i && i < len(nodes) && istype(*nodes[i], *SetFunctionNode) ==> as(*nodes[i], *SetFunctionNode).setFunction <= SetFunctionAnyOf)
 //@   censures forall(i, 0 <= i && i < len(nodes) && old(istype(*nodes[i], SymbolNode)) ==> istype(*nodes[i], SymbolNode))
-//@   censures result == nil ==> forall(i, 0 <= i && i < len(nodes) && istype(*nodes[i], *SetFunctionNode) ==> old(istype(*nodes[i], *SetFunctionNode)))
+//@   censures forall(i, 0 <= i && i < len(nodes) && istype(*nodes[i], *SetFunctionNode) ==> old(istype(*nodes[i], *SetFunctionNode)))
 //@   invariant 1: forall(i, 0 <= i && i < len(nodes) ==> nodes[i] != nil && *nodes[i] != nil)
 //@ func transformBools
 //@   props C10
